@@ -131,10 +131,15 @@ def c15_3(ctx, r):
     cfg = ctx.cfg(fn)
     want = "stage_num == (<PipelineConfig.stage_num> + 1)"
     incs = [n for n in cfg.nodes if n.kind == "stmt" and isinstance(n.ast, ast.AugAssign) and render(ctx, fn, n.ast.target) == "<PipelineConfig.stage_num>"]
-    if len(incs) != 1:
-        raise AnalysisError("C15.3", f"expected one increment of the persisted stage_num, found {len(incs)}")
-    inc = incs[0]
-    r.check(isinstance(inc.ast.op, ast.Add) and ctx.src(inc.ast.value) == "1", "stage_num += 1", key_of(fn, "increment"), fn.loc(inc.ast), f"`{ctx.src(inc.ast)}`", "each stage is submitted exactly once")
+    # `self._config.stage_num = stage_num` under the same sequence check is the same advance (stage_num == current + 1 there)
+    sets = [n for n in cfg.nodes if n.kind == "stmt" and isinstance(n.ast, ast.Assign) and len(n.ast.targets) == 1 and render(ctx, fn, n.ast.targets[0]) == "<PipelineConfig.stage_num>"]
+    if len(incs) + len(sets) != 1:
+        raise AnalysisError("C15.3", f"expected one increment of the persisted stage_num, found {len(incs) + len(sets)}")
+    inc = (incs + sets)[0]
+    if incs:
+        r.check(isinstance(inc.ast.op, ast.Add) and ctx.src(inc.ast.value) == "1", "stage_num += 1", key_of(fn, "increment"), fn.loc(inc.ast), f"`{ctx.src(inc.ast)}`", "each stage is submitted exactly once")
+    else:
+        r.check(isinstance(inc.ast.value, ast.Name) and inc.ast.value.id == "stage_num", "stage_num := the requested stage", key_of(fn, "increment"), fn.loc(inc.ast), f"`{ctx.src(inc.ast)}`", "each stage is submitted exactly once")
     forms = guard_forms(ctx, fn, inc, ALL_KINDS, kill=False)
     r.check((want, True) in forms, "the increment is dominated by `stage_num == self.stage_num + 1`", key_of(fn, "increment without sequence check"), fn.loc(inc.ast),
             "the persisted stage counter can advance for an out-of-sequence (repeated or skipped) request: a stage is submitted twice or skipped",
